@@ -1,5 +1,5 @@
 #!/bin/sh
-# Offline setup: clean full .vo build of the Coq development, extraction + OCaml driver, harness warm-up.
+# Offline setup: clean full .vo build of the Coq development, extraction + OCaml driver, harness and server warm-up.
 set -e
 cd "$(dirname "$0")"
 python3 tools/gen_fragments.py > /dev/null
@@ -9,3 +9,4 @@ coq_makefile -f _CoqProject -o Makefile > /dev/null
 timeout 3000 make -j16 > ../.setup_coq.log 2>&1 || { tail -50 ../.setup_coq.log; exit 1; }
 cd ..
 python3 tools/build.py
+python3 tools/l3.py build
